@@ -279,7 +279,7 @@ class Engine:
         for r in (c.requires if isinstance(c, Contract) else c.given):
             v = it.ops.truth_value(eval_clause(it, r, env))
             ctx.assume(v)
-        self._requires_terms = list(ctx.pc[npc:])
+        self._requires_terms = list(B.assumptions) + list(ctx.pc[npc:])
         pr = PathResult()
         pr.ctx = ctx
         pr.leaves = B.leaves
